@@ -104,7 +104,7 @@ def build_shim(bdir, backend):
     bdefs, _ = BL.backend_flags(be)
     R = BL.repo()
     so = os.path.join(bdir, 'libhist_%s.so' % backend)
-    wrap = '-Wl,--wrap=malloc,--wrap=free,--wrap=strndup,--wrap=strdup,--wrap=calloc' + (',--wrap=idn2_to_ascii_8z' if backend == 'idn2' else '')
+    wrap = '-Wl,--wrap=malloc,--wrap=free,--wrap=strndup,--wrap=strdup,--wrap=calloc' + (',--wrap=idn2_to_ascii_8z,--wrap=idn2_lookup_u8,--wrap=idn2_lookup_ul,--wrap=idn2_to_ascii_lz,--wrap=idn2_free' if backend == 'idn2' else '')
     cmd = [cc] + cflags + ['-std=gnu99', '-fPIC', '-shared', '-Wl,-Bsymbolic', '-Wl,-z,now', wrap, '-I' + os.path.join(R, 'include'), '-I' + R] + BL.BASE_DEFS + bdefs + \
           ['-o', so, os.path.join(V, 'drv', 'shim.c')] + objs + ['-lidn2']
     rc, out = BL.sh(cmd)
@@ -141,21 +141,33 @@ check('C18', level='model_checking', steps=[dict(builder=build_hist, name='hist-
 
 WRAPPED = ['memcpy', 'memchr', 'strchr', 'strrchr', 'strspn', 'strlen', 'strncasecmp', 'malloc', 'free', 'strndup']
 def build_esched(bdir, step):
-    objs = BL.build_objects(bdir, 'cov')
-    so = os.path.join(bdir, 'libeav_cov.so')
+    variant = step.get('variant', 'cov')
+    objs = BL.build_objects(bdir, variant)
+    so = os.path.join(bdir, 'libeav_%s.so' % variant.replace('-', '_'))
     rc, out = BL.sh(['clang', '-O1', '-fPIC', '-shared', '-Wl,-Bsymbolic', '-Wl,-z,now', '-Wl,' + ','.join('--wrap=' + w for w in WRAPPED), '-o', so,
                      os.path.join(V, 'sched', 'wraps.c')] + objs + ['-lidn2'])
     if rc: raise RuntimeError('libeav_cov link failed: ' + out)
     exe = os.path.join(bdir, step['name'])
     R = BL.repo()
-    cmd = ['clang', '-O1', '-g', '-std=gnu99', '-Wall', '-Wno-unused-function', '-I' + os.path.join(R, 'include'), '-I' + R, '-DHAVE_LIBIDN2'] + BL.BASE_DEFS + \
+    # premise of the write-set oracle (sched/esched.c): the library has no synchronisation of its own.  Decided from the tree, not assumed: lock /
+    # once / semaphore imports of the objects, and atomics (which leave no import) by their spelling in the sources.
+    import re as _re
+    has_sync = 0
+    for o in objs:
+        rc2, out2 = BL.sh(['nm', '-u', o])
+        if _re.search(r'\b(pthread_(mutex|rwlock|spin|once|cond|barrier)\w*|call_once|mtx_\w+|cnd_\w+|sem_(wait|post|init)|__atomic_\w+|__sync_\w+)\b', out2): has_sync = 1
+    for d in ('src', 'partial/idn2', 'include', 'include/eav'):
+        dd = os.path.join(R, d)
+        for f in (os.listdir(dd) if os.path.isdir(dd) else []):
+            if f.endswith(('.c', '.h')) and _re.search(r'_Atomic|stdatomic\.h|__atomic_|__sync_|atomic_(load|store|exchange|compare|fetch|flag)|pthread_|<threads\.h>', open(os.path.join(dd, f), errors='replace').read()): has_sync = 1
+    cmd = ['clang', '-O1', '-g', '-std=gnu99', '-Wall', '-Wno-unused-function', '-I' + os.path.join(R, 'include'), '-I' + R, '-DHAVE_LIBIDN2', '-DLIB_HAS_SYNC=%d' % has_sync] + BL.BASE_DEFS + \
           ['-o', exe, os.path.join(V, 'sched', 'esched.c'), so, '-Wl,-rpath,' + bdir, '-Wl,--export-dynamic', '-lidn2', '-lpthread', '-ldl']
     rc, out = BL.sh(cmd)
     if rc: raise RuntimeError('esched build failed: %s\n%s' % (' '.join(cmd), out))
     return exe
 
 import c14tsan, c14imports
-check('C14', level='model_checking', steps=[dict(builder=build_esched, name='esched'), dict(kind='py', name='tsan', fn=c14tsan.run), dict(kind='py', name='tsan-idn', fn=c14tsan.run_idn), dict(kind='py', name='tsan-idnkit', fn=c14tsan.run_idnkit),
+check('C14', level='model_checking', steps=[dict(builder=build_esched, name='esched'), dict(builder=build_esched, name='esched-options', variant='cov-opt7'), dict(kind='py', name='tsan', fn=c14tsan.run), dict(kind='py', name='tsan-options', fn=c14tsan.run_opt7), dict(kind='py', name='tsan-idn', fn=c14tsan.run_idn), dict(kind='py', name='tsan-idnkit', fn=c14tsan.run_idnkit),
                                              dict(kind='py', name='imports', fn=c14imports.run)],
       rule=("a state is (scheduling points passed by each thread, digest of all memory the threads share); states are distinct by construction of the visited set; "
             "every execution is a complete run of real pthreads under the controlled scheduler; distinct_nontrivial = distinct states reached over all harnesses; the scheduler's model of libc (every call one atomic step without hidden state) is closed by enumerating the import table of the library objects against the MT-Unsafe list"),
@@ -182,10 +194,12 @@ def build_c17(bdir, step):
     args = []
     for i in range(8):
         args += ['--var', BL.build_shared(bdir, 'opt%d' % i)]
-    step['args'] = args
+    step['args'] = args + list(step.get('xargs', []))
     return exe
 import c17make
 check('C17', level='exploration', steps=[dict(builder=build_c17, name='options'), dict(kind='py', name='makefile', fn=c17make.run),
+                                           # the side-by-side comparison again after setlocale() to a single-byte locale: an option that classifies bytes with <ctype.h> changes more than it documents there
+                                           dict(builder=build_c17, name='options-latin1-locale', locale='eav_latin1', xargs=['--light']),
                                            # the option builds against the reference automaton WITH the option (C03's product, W-method suite and token strings): every byte in
                                            # every state of the scanner as that build compiles it
                                            dict(src='drv/local.c', variant='opt1', defs=['-DC03', '-DREF_OPTS=1'], name='dfa-RFC5322-build', args=['--core']),
